@@ -1,6 +1,7 @@
 import Rustemo.Proofs.AstShapes
 import Rustemo.Proofs.AstSkel
 import Rustemo.Proofs.AstDfs
+import Rustemo.Proofs.AstStack
 /-!
 # Concrete instances used by Props/C10.lean and Props/C11.lean (non-vacuity, counterexamples)
 -/
